@@ -4,7 +4,7 @@ From Coq Require Import QArith Qcanon List String Bool.
 Import ListNotations.
 From S2 Require Import Base.Num Base.Arr Model.Expr Model.Struct Model.Rates Model.Solvers Model.Program
      Model.InitPop Model.Adaptive Spec.RatesSpec Proofs.NumQc Proofs.RatesProofs Proofs.ConservationProofs Proofs.AdaptiveProofs
-     Props.Examples.
+     Proofs.ReplacementAdd Props.Examples.
 
 (* the rate of change of the total population = total entry rate - total exit rate; every flow
    with both ends contributes +r to its destination and -r to its source and cancels *)
@@ -89,6 +89,21 @@ Theorem C02_replacement :
     fsum O (get_comp_rates O m b p t x0) = f0 O.
 Proof. exact replacement_total_zero. Qed.
 Print Assumptions C02_replacement.
+
+(* ... and that is how a replacement-birth flow enters the model: however many compartments its destination matches at
+   the time of the call (none stratified yet, or an already stratified model), the flows the call adds are
+   replacement-birth flows whose weights add up to one.  (Before the repair f211346 each of n matching destinations
+   received weight 1, the hypothesis of C02_replacement failed and the population grew: DESIGN.md section 7.) *)
+Theorem C02_replacement_added :
+  forall (O : NumOps) (T : NumTheory O) m name param src dst sf df expected split m' (p : env O) t x,
+    add_flow m (FlowSpec KRepl name param src dst sf df expected split) = Ok m' ->
+    exists new,
+      m_flows m' = m_flows m ++ new
+      /\ List.length new = List.length (filter (fun c => is_match c dst df) (m_comps m))
+      /\ (forall f, In f new -> f_kind f = KRepl)
+      /\ (new <> [] -> fsum O (map (weight_spec O p t x) new) = f1 O).
+Proof. intros O T. exact (replacement_added_weights O T). Qed.
+Print Assumptions C02_replacement_added.
 
 (* non-vacuity: the example model (deaths + replacement births split 5/8 + 3/8 ... plus an
    importation flow) meets the hypotheses of C02_total_rate, and its total rate is the
